@@ -252,6 +252,46 @@ class Check:
             "checker_cmd": "make -C coq -j16 (coq_makefile, full .vo build) && coqc -Q theories GW theories/Properties/%s.v" % self.prop,
         })
 
+    def stage_obligations(self):
+        """Tie (A): regenerate the skeletons/constants from the working tree with the translator and
+        prove them equal to the ones the models were written from (reflexivity lemmas in
+        coq/obligations/Obl_<prop>.v).  Nothing is written into the shared Coq tree."""
+        obl = os.path.join(COQ, "obligations", "Obl_%s.v" % self.prop)
+        if not os.path.exists(obl):
+            return
+        gen = os.path.join(self.workdir, "gen")
+        os.makedirs(gen, exist_ok=True)
+        exe = os.path.join(self.workdir, "gwtranslator")
+        rc, out = run(["go", "build", "-o", exe, "."], cwd=os.path.join(VERIF, "translator"), env=GOENV, timeout=600)
+        if rc != 0:
+            self.broken.append(("translator-build", out[-2000:]))
+            return
+        rc, out = run([exe, REPO, os.path.join(gen, "Skeletons.v")], cwd=self.workdir, timeout=120)
+        if rc != 0:
+            self.broken.append(("translator-run", out[-2000:]))
+            return
+        rc, out = run(["coqc", "-Q", gen, "Gen", os.path.join(gen, "Skeletons.v")], cwd=gen, timeout=300)
+        if rc != 0:
+            self.broken.append(("generated-skeletons", out[-2000:]))
+            return
+        text = strip_comments(open(obl, encoding="utf-8").read())
+        lemmas = re.findall(r"^\s*Lemma\s+(\w+)", text, re.M)
+        rc, out = run(["coqc", "-Q", os.path.join(COQ, "theories"), "GW", "-Q", gen, "Gen",
+                       "-o", os.path.join(self.workdir, "Obl_%s.vo" % self.prop), obl], cwd=self.workdir, timeout=600)
+        ok = rc == 0
+        failed = None
+        if not ok:
+            m = re.search(r"line (\d+)", out)
+            if m:
+                upto = "\n".join(open(obl, encoding="utf-8").read().split("\n")[:int(m.group(1))])
+                names = re.findall(r"Lemma\s+(\w+)", upto)
+                failed = names[-1] if names else None
+            self.broken.append(("regenerated obligation %s (coq/obligations/Obl_%s.v)" % (failed or "?", self.prop),
+                                "the skeleton/constant regenerated from the working tree differs from the one the model was written from\n" + out[-1500:]))
+        self.cov["regenerated_obligations"] = lemmas
+        self.cov["obligations"] = self.cov.get("obligations", 0) + len(lemmas)
+        self.cov["discharged"] = self.cov.get("discharged", 0) + (len(lemmas) if ok else 0)
+
     def stage_harness(self, extra_args=(), label="cases"):
         exe, out = build_harness(self.workdir)
         if exe is None:
@@ -376,6 +416,7 @@ def generic_main(prop, tier, seed, replay):
     chk = Check(prop, tier, seed, replay)
     known = load_known()
     chk.stage_proof()
+    chk.stage_obligations()
     doc = None
     for stage in EXTRA_STAGES.get(prop, {}).get("pre", []):
         stage(chk)
